@@ -100,3 +100,32 @@ def stats(cases, key_fns):
             hist[k] = hist.get(k, 0) + 1
         out[name] = dict(sorted(hist.items(), key=lambda kv: (len(kv[0]), kv[0]))[:30])
     return out
+
+
+def shift(obj, off):
+    """shift every segment (a list of exactly two ints) found anywhere inside obj by off ticks"""
+    if isinstance(obj, list):
+        if len(obj) == 2 and all(isinstance(x, int) and not isinstance(x, bool) for x in obj):
+            return [obj[0] + off, obj[1] + off]
+        return [shift(x, off) for x in obj]
+    return obj
+
+
+FAR_SECONDS = [7200, 100000, -30000, 86400 * 3]
+
+
+def far_copies(rng, cases, keys, count):
+    """translated copies of `count` sampled cases: the same timelines hours or days away from the origin (either
+    sign), where an absolute-magnitude-dependent tolerance or a lost low-order bit would show; `keys` name the
+    fields that hold segments (anything else - collars, labels, indices - is kept)"""
+    out = []
+    pool = [c for c in cases if any(c.get(k) for k in keys)]
+    for _ in range(min(count, len(pool))):
+        c = rng.choice(pool)
+        off = rng.choice(FAR_SECONDS) * REGIMES[c["regime"]]["scale"]
+        d = dict(c)
+        for k in keys:
+            if k in d:
+                d[k] = shift(d[k], off)
+        out.append(d)
+    return out
